@@ -96,8 +96,10 @@ def _custom(out):
     # user-supplied filter banks handed over as tuples of arrays (a 2-tap bank that is not Haar, a 4-tap bank without any symmetry)
     for w in D.CUSTOM:
         for mode in D.MODES:
+            if mode == 'periodization' and D.filt_len(w) % 2:
+                continue
             for J in (1, 2):
-                for n in (5, 8):
+                for n in (5, 8, 12):
                     out.append(dict(dim=1, wave=w, mode=mode, J=J, N=n, B=1, C=1))
             out.append(dict(dim=2, wave=w, mode=mode, J=1, H=5, W=6, B=1, C=1))
             out.append(dict(dim=2, wave=w, mode=mode, J=2, H=8, W=6, B=1, C=2))
